@@ -1,4 +1,212 @@
+(* P_C19.v — property C19: FunctionTest verdicts are sound — a test case passes
+   iff its assertion holds for what the Function did.  Statements only; proofs
+   are in proofs/FnTestMatch_proofs.v.  Model: model/FnTestMatch.v
+   (src/koreo/function_test/run.py, prepare.py).
+
+   Vocabulary (defined in FnTestMatch_proofs.v, independently of the algorithm):
+     equiv E K s t a   "the actual value a is what the expectation t describes":
+                       equal, nothing missing, nothing extra, modulo the
+                       x-koreo-compare-as-set / -as-map directives of t.  E is the
+                       equality between members of set-compared lists, K the
+                       reading of a map-directed value as a keyed collection.
+       exact reading   E = py_eq (Python ==: True = 1 = 1.0), K = list_to_object
+                       (anything iterable; "" and {} count as empty collections)
+       strict reading  E = strict_eq (a boolean only equals a boolean),
+                       K = keyed_list (a list of objects)
+     apart x y         the two documents differ somewhere (declarative)
+     deviates1 x y     y is x with ONE deviation at any depth: changed / retyped
+                       leaf, missing key, extra key, list length change, reorder of
+                       distinct elements
+     dfree t           t has no directive-named key anywhere
+     outcome_holds e a same class, message contained case-insensitively ('' matches
+                       anything), non-zero delay equal; None = "ok" = a plain value *)
 From Koreo Require Import Json Outcome FnTestMatch FnTestMatch_proofs.
-Theorem C19_placeholder : forall x y, mand x y = MDone true <-> x = MDone true /\ y = MDone true.
-Proof. exact mand_true. Qed.
-Print Assumptions C19_placeholder.
+From Coq Require Import Permutation.
+Local Open Scope list_scope.
+
+Section C19.
+  (* f"{obj.get(field)}".strip() — the theorems hold for every such function *)
+  Variable key_text : json -> string.
+
+  Notation tmatch := (tmatch key_text).
+  Notation equiv_exact := (equiv py_eq (list_to_object key_text)).
+  Notation equiv_strict := (equiv strict_eq (keyed_list key_text)).
+
+  (* the comparator always has enough fuel: MFuel is never its answer *)
+  Theorem C19_fuel : forall t a, tmatch t a <> MFuel.
+  Proof. exact (tmatch_never_out_of_fuel key_text). Qed.
+
+  (* "the object ... equals the expected object exactly (nothing missing, nothing
+     extra, modulo compare directives)": the comparator passes EXACTLY when the
+     actual value is what the expectation describes — for every expectation and
+     every actual value, directives included, no side condition (exact reading) *)
+  Theorem C19_tmatch_exact : forall t a, tmatch t a = MDone true <-> equiv_exact false t a.
+  Proof. exact (tmatch_exact key_text). Qed.
+
+  (* "an assertion derived from the Function's actual behaviour passes": under
+     the STRICT reading too, for every expectation, directives included *)
+  Theorem C19_tmatch_complete : forall t a, equiv_strict false t a -> tmatch t a = MDone true.
+  Proof. exact (tmatch_complete key_text). Qed.
+
+  (* tmatch_iff, strict reading, expectation without directives (what
+     expectReturn / expectResource normally hold): pass iff exactly equal *)
+  Theorem C19_tmatch_iff : forall t a,
+    dfree t = true -> (tmatch t a = MDone true <-> equiv_strict false t a).
+  Proof. exact (tmatch_iff_dfree key_text). Qed.
+
+  (* tmatch_iff_partial — NOT proved in full for expectations WITH directives under
+     the strict reading:
+       forall t a, regular t -> no_bool_in_lists a ->
+                   (tmatch t a = MDone true <-> equiv_strict false t a)
+     (regular: well-shaped directives; map-directed values are non-empty lists of
+     objects with distinct, non-directive key texts; set-directed lists hold no
+     booleans).  Proved instead: the unconditional exact characterisation
+     C19_tmatch_exact, the direction C19_tmatch_complete, and the three witnesses
+     below showing that WITHOUT those side conditions the strict statement is
+     false (findings F1, F2, F2b). *)
+  Theorem C19_tmatch_sound_strict_refuted_set_bool :
+    exists t a, tmatch t a = MDone true /\ ~ equiv_strict false t a.
+  Proof. exact (tmatch_sound_strict_refuted_set_bool key_text). Qed.
+
+  Theorem C19_tmatch_sound_strict_refuted_map_empty :
+    exists t a, tmatch t a = MDone true /\ ~ equiv_strict false t a.
+  Proof. exact (tmatch_sound_strict_refuted_map_empty key_text). Qed.
+
+  (* the comparator is not total: with a map directive, an actual value that is
+     not a list of objects raises instead of producing a failing verdict *)
+  Theorem C19_tmatch_total_refuted : exists t a, tmatch t a = MRaised.
+  Proof. exact (tmatch_raises key_text). Qed.
+
+  (* "any single deviation from it fails": the actual value deviates ... *)
+  Theorem C19_single_deviation_fails : forall t a a',
+    dfree t = true -> equiv_exact false t a -> deviates1 a a' -> tmatch t a' = MDone false.
+  Proof. exact (single_deviation_fails key_text). Qed.
+
+  (* ... or (the property's own quantifier) the ASSERTION is perturbed *)
+  Theorem C19_single_deviation_of_assertion_fails : forall t t' a,
+    dfree t = true -> dfree t' = true -> equiv_exact false t a -> deviates1 t t' ->
+    tmatch t' a = MDone false.
+  Proof. exact (single_deviation_of_assertion_fails key_text). Qed.
+
+  (* not only single deviations: any two documents that differ somewhere *)
+  Theorem C19_apart_fails : forall t a a',
+    dfree t = true -> equiv_exact false t a -> apart a a' -> tmatch t a' = MDone false.
+  Proof. exact (apart_actual_fails key_text). Qed.
+
+  (* "expectOutcome only for the same outcome class with the message contained
+     and, if non-zero, the delay equal" *)
+  Theorem C19_outcome_match_iff : forall e a,
+    preparable e -> (outcome_match key_text e a = MDone true <-> outcome_holds e a).
+  Proof. exact (outcome_match_iff key_text). Qed.
+
+  (* every ExpectOutcome that prepare builds is in the theorem's domain *)
+  Theorem C19_prepared_outcomes_preparable : forall spec e,
+    expect_outcome_of spec = PExpect e -> preparable e.
+  Proof. exact expect_outcome_preparable. Qed.
+
+  (* "expectReturn only for an Ok result equal to the expected value" *)
+  Theorem C19_verdict_return_iff : forall e a,
+    verdict_return key_text e a = MDone true <-> exists v, a = UVal v /\ equiv_exact false e v.
+  Proof. exact (verdict_return_iff key_text). Qed.
+
+  (* "expectResource only when a create or patch was attempted and the object
+     sent equals the expected object exactly" *)
+  Theorem C19_verdict_resource_iff : forall e mat a,
+    e <> JNull ->
+    (verdict_resource key_text e mat a = MDone true <->
+     exists m m' d msg loc, mat = Some m /\ a = UOut (Retry d msg loc) /\
+                            strip_last_applied m = Some m' /\ equiv_exact false e m').
+  Proof. exact (verdict_resource_iff key_text). Qed.
+
+  (* ... "a create or patch": the last call sent a body, provided the expectation
+     names at least one ordinary key (an expectation of directive keys only also
+     passes on the {} materialised for a DELETE: see the refuted lemma) *)
+  Theorem C19_resource_pass_needs_send : forall cur cs m ek a k,
+    mock_calls (mock_init cur) cs = Some m -> In k (plain_keys ek) ->
+    verdict_resource key_text (JMap ek) (m_mat m) a = MDone true ->
+    exists cs' body, cs = cs' ++ [CallSend body].
+  Proof. exact (resource_pass_needs_send key_text). Qed.
+
+  Theorem C19_resource_directive_only_refuted :
+    exists m, (mock_calls (mock_init (Some (JMap [("kind"%string, JStr "K"%string)]))) [CallDelete] = Some m) /\
+      (verdict_resource key_text (JMap [(K_SET, JList [])]) (m_mat m)
+                        (UOut (Retry 15%Z (Some "Deleting"%string) None)) = MDone true).
+  Proof. exact (resource_directive_only_passes_on_delete key_text). Qed.
+
+  (* "expectDelete only when a delete was (or was not) issued as stated" *)
+  Theorem C19_verdict_delete_iff : forall b o,
+    verdict key_text (ExpectDelete b) o = MDone true <-> ob_deleted o = b.
+  Proof. exact (verdict_delete_iff key_text). Qed.
+
+  Theorem C19_verdict_outcome_iff : forall e o,
+    preparable e ->
+    (verdict key_text (ExpectOutcome e) o = MDone true <-> outcome_holds e (ob_actual o)).
+  Proof. exact (verdict_outcome_iff key_text). Qed.
+End C19.
+
+(* the flag expectDelete reads is set iff a DELETE was issued *)
+Theorem C19_mock_deleted_iff : forall cur cs m,
+  mock_calls (mock_init cur) cs = Some m -> (m_deleted m = true <-> In CallDelete cs).
+Proof. exact mock_deleted_iff. Qed.
+
+(* "the object sent" for a patch: what the mock materialises — every top-level key
+   of the body replaces the current one, the other top-level keys stay *)
+Theorem C19_merge_overlay_toplevel : forall b o,
+  NoDup (map fst o) ->
+  exists m, merge_overlay (JMap b) (JMap o) = Some (JMap m) /\
+            forall k, lookup k m = match lookup k o with Some v => Some v | None => lookup k b end.
+Proof. exact merge_overlay_toplevel. Qed.
+
+(* the last-applied annotation koreo adds to everything it sends is removed
+   before the comparison (and `annotations` with it when it was the only one) *)
+Theorem C19_strip_last_applied_sent : forall kvs md an v,
+  lookup "metadata"%string kvs = Some (JMap md) -> lookup "annotations"%string md = Some (JMap an) ->
+  lookup LAST_APPLIED an = Some v ->
+  strip_last_applied (JMap kvs) =
+  Some (JMap (set_key "metadata"%string
+                (JMap (if Nat.eqb (List.length an) 1 then del_key "annotations"%string md
+                       else set_key "annotations"%string (JMap (del_key LAST_APPLIED an)) md)) kvs)).
+Proof. exact strip_last_applied_sent. Qed.
+
+(* non-vacuity: a nested expectation, the value it describes (1 vs 1.0 is not a
+   deviation), a single deviation three levels down, and the verdicts *)
+Example C19_nonvacuous :
+  let t := JMap [("spec"%string, JMap [("ports"%string, JList [JInt 80; JInt 443]);
+                                       ("on"%string, JBool true); ("n"%string, JInt 1)])] in
+  let a := JMap [("spec"%string, JMap [("n"%string, JFloat 1 0); ("on"%string, JBool true);
+                                       ("ports"%string, JList [JInt 80; JInt 443])])] in
+  let a' := JMap [("spec"%string, JMap [("n"%string, JFloat 1 0); ("on"%string, JInt 1);
+                                        ("ports"%string, JList [JInt 80; JInt 443])])] in
+  dfree t = true /\ tmatch py_key_text t a = MDone true /\ deviates1 a a' /\
+  tmatch py_key_text t a' = MDone false.
+Proof.
+  cbv zeta. repeat split; try reflexivity.
+  set (inner := [("n"%string, JFloat 1 0); ("on"%string, JBool true);
+                 ("ports"%string, JList [JInt 80; JInt 443])]).
+  refine (D_val [("spec"%string, JMap inner)] "spec"%string (JMap inner)
+                (JMap (set_key "on"%string (JInt 1) inner)) eq_refl eq_refl _).
+  refine (D_val inner "on"%string (JBool true) (JInt 1) eq_refl eq_refl _).
+  apply D_here, DR_kind. discriminate.
+Qed.
+
+Print Assumptions C19_fuel.
+Print Assumptions C19_tmatch_exact.
+Print Assumptions C19_tmatch_complete.
+Print Assumptions C19_tmatch_iff.
+Print Assumptions C19_tmatch_sound_strict_refuted_set_bool.
+Print Assumptions C19_tmatch_sound_strict_refuted_map_empty.
+Print Assumptions C19_tmatch_total_refuted.
+Print Assumptions C19_single_deviation_fails.
+Print Assumptions C19_single_deviation_of_assertion_fails.
+Print Assumptions C19_apart_fails.
+Print Assumptions C19_outcome_match_iff.
+Print Assumptions C19_prepared_outcomes_preparable.
+Print Assumptions C19_verdict_return_iff.
+Print Assumptions C19_verdict_resource_iff.
+Print Assumptions C19_resource_pass_needs_send.
+Print Assumptions C19_resource_directive_only_refuted.
+Print Assumptions C19_verdict_delete_iff.
+Print Assumptions C19_verdict_outcome_iff.
+Print Assumptions C19_mock_deleted_iff.
+Print Assumptions C19_merge_overlay_toplevel.
+Print Assumptions C19_strip_last_applied_sent.
